@@ -110,9 +110,9 @@ Proof.
   - injection H as H; subst; reflexivity.
   - discriminate.
   - destruct (cfold e1), (cfold e2); try discriminate. injection H as H; subst.
-    cbn [cval]. rewrite (IHe1 _ eq_refl), (IHe2 _ eq_refl). reflexivity.
+    cbn [cval]. rewrite (IHe1 _ eq_refl), (IHe2 _ eq_refl), gred_correct. reflexivity.
   - cbn [cval]. destruct (cfold e1) as [x|] eqn:E1, (cfold e2) as [y|] eqn:E2.
-    + injection H as H; subst. rewrite (IHe1 _ eq_refl), (IHe2 _ eq_refl). reflexivity.
+    + injection H as H; subst. rewrite (IHe1 _ eq_refl), (IHe2 _ eq_refl), gred_correct. reflexivity.
     + destruct (gzerob x) eqn:Ez; [|discriminate]. injection H as H; subst.
       rewrite (IHe1 _ eq_refl). apply geqb_spec in Ez. rewrite Ez. ring.
     + destruct (gzerob y) eqn:Ez; [|discriminate]. injection H as H; subst.
